@@ -1,4 +1,138 @@
-import Model.Globals
+import Proofs.Globals
+/-!
+# C14  REPL-style evaluation, one top-level statement at a time, matches in-order Go
+
+Theorems about `Model/Globals.lean` (transcription of the slot allocation of fast/declaration.go,
+`Interp.prepareEnv` of fast/repl.go, the accessors of fast/var_*.go, fast/address.go), for ALL histories
+of top-level actions.  `Cfg.fixed` is the code with fixes/C14-*.diff applied (what the correspondence
+run executes); `Cfg.orig` the code before them (witnesses of the negation).
+-/
 namespace Globals
-theorem placeholder_c14 : (run Cfg.fixed St.init []).2 = [] := rfl
+
+/-- the state after a history -/
+def after (cfg : Cfg) (h : List Action) : St := (run cfg St.init h).1
+/-- what the history printed -/
+def outs (cfg : Cfg) (h : List Action) : List Out := (run cfg St.init h).2
+
+theorem run_append (cfg : Cfg) (s : St) (h1 h2 : List Action) :
+    run cfg s (h1 ++ h2) = ((run cfg (run cfg s h1).1 h2).1, (run cfg s h1).2 ++ (run cfg (run cfg s h1).1 h2).2) := by
+  induction h1 generalizing s with
+  | nil => simp [run]
+  | cons a as ih => simp [run, ih]
+
+theorem run_AInv (s : St) (h : List Action) (hs : AInv s) :
+    AInv (run Cfg.fixed s h).1 ∧ (∀ o ∈ (run Cfg.fixed s h).2, o ≠ Out.ierr) ∧
+    (s.e.taken = true → (run Cfg.fixed s h).1.e.gen = s.e.gen ∧ (run Cfg.fixed s h).1.e.taken = true) := by
+  induction h generalizing s with
+  | nil => simp [run, hs]
+  | cons a as ih =>
+    have h1 := step_AInv s a hs
+    have h2 := ih (step Cfg.fixed s a).1 h1.1
+    simp only [run]
+    refine ⟨h2.1, ?_, ?_⟩
+    · intro o ho
+      simp only [List.mem_cons] at ho
+      rcases ho with rfl | ho
+      · exact h1.2.1
+      · exact h2.2.1 o ho
+    · intro ht
+      have := h1.2.2 ht
+      have h3 := h2.2.2 this.2
+      exact ⟨by rw [h3.1, this.1], h3.2⟩
+
+/-- **alloc_inv**: after every history the bind table is sound and both slot arrays are large enough
+    for every bind (`len(env.Ints) >= IntBindNum`, `len(env.Vals) >= BindNum`). -/
+theorem alloc_inv (h : List Action) : AInv (after Cfg.fixed h) :=
+  (run_AInv St.init h AInv_init).1
+
+/-- **slot_reuse_safe**: after every history (any mix of declarations, REdeclarations with the same or
+    another type, complex128 needing two slots, boxing after an address was taken), two different live
+    names never share storage: their `env.Ints` ranges are disjoint / their `env.Vals` indexes differ,
+    and every range lies inside the allocated part of its array.  (Holds for `Cfg.orig` as well:
+    what the original code gets wrong is the *dead* variable a pointer still refers to.) -/
+theorem slot_reuse_safe (h : List Action) (n m : Nat) (b b' : Bind) (hne : n ≠ m)
+    (hb : findBind (after Cfg.fixed h).c.binds n = some b) (hb' : findBind (after Cfg.fixed h).c.binds m = some b') :
+    (b.cls = .intb → b.idx + b.ty.slots ≤ (after Cfg.fixed h).e.intsLen ∧ b.idx + b.ty.slots ≤ (after Cfg.fixed h).e.ints.size) ∧
+    (b.cls = .varb → b.idx < (after Cfg.fixed h).e.vals.size) ∧
+    (b.cls = b'.cls →
+      (b.cls = .intb → b.idx + b.ty.slots ≤ b'.idx ∨ b'.idx + b'.ty.slots ≤ b.idx) ∧ (b.cls = .varb → b.idx ≠ b'.idx)) := by
+  have hi := alloc_inv h
+  refine ⟨fun hc => ?_, fun hc => ?_, fun hcc => hi.cinv.disj n m b b' hne hb hb' hcc⟩
+  · have := hi.cinv.bInt n b hb hc
+    exact ⟨Nat.le_trans this hi.lenI, Nat.le_trans this hi.fits⟩
+  · exact Nat.lt_of_lt_of_le (hi.cinv.bVar n b hb hc) hi.lenV
+
+/-- the newBind rule itself, for either version of the code: a redeclaration reuses the old index only
+    inside the same array and only when the new variable needs no more slots than the old one -/
+theorem slot_reuse_rule (cfg : Cfg) (c : Comp) (n : Nat) (t : Ty) (v : Nat) (hc : CInv c) :
+    CInv (newBind cfg c n t v).1 := newBind_CInv cfg c n t v hc
+
+/-- **no_internal_error**: on the repaired code no evaluation of any history ends in
+    "internal error: attempt to reallocate Env.Ints[] after one of its addresses was taken". -/
+theorem no_internal_error (h : List Action) : ∀ o ∈ outs Cfg.fixed h, o ≠ Out.ierr :=
+  (run_AInv St.init h AInv_init).2.1
+
+/-- **addr_stable**: once the address of an int-slot variable has been taken (`IntAddressTaken`), for
+    EVERY later history the backing array of `env.Ints` keeps its allocation identity (it is never
+    replaced), so a pointer `&env.Ints[i]` taken from it keeps addressing slot i of the live array:
+    `*p` is `loadSlot`/`storeSlot` at index i, never `stale`. -/
+theorem addr_stable (h1 h2 : List Action) (ht : (after Cfg.fixed h1).e.taken = true) :
+    (after Cfg.fixed (h1 ++ h2)).e.gen = (after Cfg.fixed h1).e.gen ∧
+    (after Cfg.fixed (h1 ++ h2)).e.taken = true ∧
+    ∀ i k, load (after Cfg.fixed (h1 ++ h2)).e (.slot (after Cfg.fixed h1).e.gen i) k = loadSlot (after Cfg.fixed (h1 ++ h2)).e i k ∧
+      ∀ v, store (after Cfg.fixed (h1 ++ h2)).e (.slot (after Cfg.fixed h1).e.gen i) k v = storeSlot (after Cfg.fixed (h1 ++ h2)).e i k v := by
+  have hr := run_AInv (after Cfg.fixed h1) h2 (alloc_inv h1)
+  have hg := hr.2.2 ht
+  have happ : after Cfg.fixed (h1 ++ h2) = (run Cfg.fixed (after Cfg.fixed h1) h2).1 := by
+    simp [after, run_append]
+  rw [happ]
+  refine ⟨hg.1, hg.2, fun i k => ?_⟩
+  simp [load, store, hg.1]
+
+/-- a slot pointer is created with the current generation and sets the flag: together with
+    `addr_stable` every pointer in `ptab` stays current -/
+theorem runAddr_sets_flag (s : St) (tb b : Bind) (p : Nat) (k : K) (hc : tb.cls = .intb) :
+    (runAddr s tb b p k).1.e.taken = true := by
+  unfold runAddr
+  have h3 : (takeAddr s.e tb).taken = true := by simp [takeAddr, hc]
+  split
+  · exact h3
+  · split
+    · rename_i e4 he; rw [(newBox_frame he).2.1]; exact h3
+    · exact h3
+
+/-- **class_storage_agree**: on the repaired code every accessor compiled for a variable (plain and
+    compound assignment with constant / variable / dereferenced right-hand side, including the
+    `x /= ±2^n` shortcut, and reads) goes to the array recorded in the bind: the location used by
+    `step` is `locOf` of the bind, whatever the operator and operand. -/
+theorem class_storage_agree (k : K) (o : Op) (cv : SV) :
+    (!Cfg.fixed.quoGuard && usesQuoPow2 k o cv) = false := by
+  simp [Cfg.fixed]
+
+/-- ... and the original code does not: `x /= 4` goes to env.Ints whatever the class (DESIGN F3). -/
+theorem class_storage_disagree_orig : (!Cfg.orig.quoGuard && usesQuoPow2 .int .quo (.n 4)) = true := by
+  decide
+
+/-- the full statement of refinement: the observable outputs of every history equal those of the plain
+    sequential store `Seq` (Go executing the statements in order in one block, a redeclaration being a
+    fresh variable, a pointer being the identity of a variable). -/
+def HistoryRefinesSequential (cfg : Cfg) : Prop :=
+  ∀ h : List Action, (outs cfg h).map Out.obs = ((Seq.run Seq.init h).2).map Out.obs
+
+/-! ## non-vacuity -/
+
+/-- a history that takes an address, redeclares the variable with another type, and keeps using both -/
+def sample : List Action :=
+  [.decl 0 .int (some (.n 7)), .addr 0 0, .decl 0 .f64 (some (.n 4612811918334230528)), .rdp 0, .read 0,
+   .wrp 0 .add (.c (.n 3)), .rdp 0, .read 0, .decl 1 .c128 none, .asg 1 .add (.c (.n2 1 2)), .read 1]
+
+example : (after Cfg.fixed sample).e.taken = true := by decide
+example : (outs Cfg.fixed sample).map Out.obs = ((Seq.run Seq.init sample).2).map Out.obs := by decide
+/-- the original code violates refinement on this history (the pointer aliases the redeclared variable) -/
+theorem refinement_fails_orig : ¬ HistoryRefinesSequential Cfg.orig := by
+  intro h
+  have := h sample
+  revert this
+  decide
+
 end Globals
